@@ -106,6 +106,12 @@ def chain_oracle(case, obs, aspects):
                         return f'task {n}: input {k} is bound to {have[k]}, declared: {want[k]}'
                 elif canon_spec(have[k].get('default')) != canon_spec(want[k]['default']):
                     return f'task {n}: absent optional input {k} is bound to {have[k]}, declared default {want[k]}'
+    if 'edges' in aspects and 'edges' in obs:
+        declared = sorted({(v['task'], got[n]['canon']) for n in got for k, v in got[n]['inputs'] if 'task' in v})
+        graph = sorted(tuple(e) for e in obs['edges'])
+        if declared != graph:
+            return (f'the dependency graph has edges {graph}, the inputs of the tasks are {declared} '
+                    f'(missing: {sorted(set(declared) - set(graph))}, extra: {sorted(set(graph) - set(declared))})')
     return None
 
 
@@ -146,6 +152,30 @@ class ChainBuild(Suite):
             dict(classes=[K(0, 'Features'), K(1, 'User', meta_inputs=[{'name': 'features'}])],
                  files={'t.json': {'tasks': ['@M.Features']}, 'u.json': {'tasks': ['@M.User']}},
                  base={'name': 'main', 'data': {'uses': ['t.json as pretrain', 'u.json as train']}}, context=None),
+            # a pattern input matches whole names only: ~x takes x, not xn (the model knows literal names and `prefix.*`)
+            dict(classes=[dict(K(0, 'X'), name='x'), dict(K(1, 'Xn'), name='xn'), dict(K(2, 'Xnn'), name='xnn'),
+                          dict(K(4, 'Merge', meta_inputs=[{'name': '~x'}, {'name': '~~xn'}]), name='merge')],
+                 files={}, base={'name': 'm', 'data': {'tasks': ['@M.*']}}, context=None),
+            # a declared shortcut beside a longer path: raw -> clean -> report and raw -> report are both edges
+            dict(classes=[dict(K(0, 'Raw'), name='raw'), dict(K(1, 'Clean', meta_inputs=[{'cls': 0}]), name='clean'),
+                          dict(K(2, 'Report', meta_inputs=[{'cls': 1}, {'cls': 0}]), name='report')],
+                 files={}, base={'name': 'm', 'data': {'tasks': ['@M.*']}}, context=None),
+            # per-namespace context entries of several contexts are merged key by key
+            dict(classes=[K(0, 'Abc', params=[P('x'), P('y', default=[5])])],
+                 files={'one.json': {'tasks': ['@M.Abc'], 'x': 1, 'y': 2}}, base={'name': 'main', 'data': {'uses': 'one.json as ns'}},
+                 context={'list': [{'dict': {'for_namespaces': {'ns': {'x': 11}}}}, {'dict': {'for_namespaces': {'ns': {'y': 12}}}}]}),
+            # two different config files with one file name, declaring the same task in the same namespace: a conflict
+            dict(classes=[K(0, 'Abc', params=[P('x')])],
+                 files={'run_a/model.json': {'tasks': ['@M.Abc'], 'x': 1}, 'run_b/model.json': {'tasks': ['@M.Abc'], 'x': 2}},
+                 base={'name': 'main', 'data': {'uses': ['run_a/model.json', 'run_b/model.json']}}, context=None),
+            dict(classes=[K(0, 'Abc', params=[P('x')])],
+                 files={'run_a/model.json': {'tasks': ['@M.Abc'], 'x': 1}, 'run_b/model.json': {'tasks': ['@M.Abc'], 'x': 2}},
+                 base={'name': 'main', 'data': {'uses': ['run_b/model.json as ns', 'run_a/model.json as ns']}}, context=None),
+            # an input in a nested namespace whose name contains the outer namespace's name
+            dict(classes=[dict(K(0, 'Producer'), name='producer'),
+                          dict(K(1, 'Consumer', meta_inputs=[{'name': 'basemodel::producer'}]), name='consumer')],
+                 files={'leaf.json': {'tasks': ['@M.Producer']}, 'mid.json': {'tasks': ['@M.Consumer'], 'uses': 'leaf.json as basemodel'}},
+                 base={'name': 'top', 'data': {'uses': 'mid.json as model'}}, context=None),
             # a class excluded by one config is still declared by another one (order: the excluding config first)
             dict(classes=[K(0, 'Numbers'), K(1, 'Report', meta_inputs=[{'cls': 0}])],
                  files={'a.json': {'tasks': ['@M.*'], 'excluded_tasks': ['@M.Report']}, 'b.json': {'tasks': ['@M.*']}},
